@@ -166,6 +166,16 @@ impl IrrDb {
         if q.starts_with("!n") || q.starts_with("!t") {
             return Some("C\n".into());
         }
+        // source selection: one source, TEST
+        if q == "!s-lc" {
+            return Some(Self::data(&["TEST".to_string()]));
+        }
+        if q.starts_with("!s") {
+            return Some("C\n".into());
+        }
+        if q == "!j-*" || q.starts_with("!j") {
+            return Some(Self::data(&["TEST:Y:1-1".to_string()]));
+        }
         if let Some(rest) = q.strip_prefix("!i") {
             let name = rest.trim_end_matches(",1");
             let upper = name.to_uppercase();
@@ -211,7 +221,52 @@ impl IrrDb {
                     return Some(format!("A{}\n{}C\n", obj.len(), obj));
                 }
             }
-            return Some("D\n".into());
+            let upper = name.to_uppercase();
+            let tail = "mnt-by:         MAINT-TEST\nsource:         TEST\n";
+            let obj = match class {
+                "as-set" => self.as_sets.get(&upper).map(|m| format!("as-set:         {name}\nmembers:        {}\n{tail}", m.join(", "))),
+                "route-set" => self.route_sets.get(&upper).map(|m| {
+                    let (v6, v4): (Vec<&String>, Vec<&String>) = m.iter().partition(|x| x.contains(':') && x.contains('/'));
+                    let mut o = format!("route-set:      {name}\n");
+                    if !v4.is_empty() {
+                        o.push_str(&format!("members:        {}\n", v4.iter().map(|x| x.as_str()).collect::<Vec<_>>().join(", ")));
+                    }
+                    if !v6.is_empty() {
+                        o.push_str(&format!("mp-members:     {}\n", v6.iter().map(|x| x.as_str()).collect::<Vec<_>>().join(", ")));
+                    }
+                    o + tail
+                }),
+                "aut-num" if self.routes4.contains_key(&upper) || self.routes6.contains_key(&upper) => {
+                    Some(format!("aut-num:        {name}\nas-name:        GENERATED\n{tail}"))
+                }
+                _ => None,
+            };
+            return Some(match obj {
+                Some(o) => format!("A{}\n{}C\n", o.len(), o),
+                None => "D\n".into(),
+            });
+        }
+        // route searches: exact match with origins (`!r<prefix>,o`) and exact match objects (`!r<prefix>`)
+        if let Some(rest) = q.strip_prefix("!r") {
+            let (pfx, opt) = rest.split_once(',').unwrap_or((rest, ""));
+            let mut origins: Vec<String> = Vec::new();
+            for (asn, rs) in self.routes4.iter().chain(self.routes6.iter()) {
+                if rs.iter().any(|r| r.eq_ignore_ascii_case(pfx)) && !origins.contains(asn) {
+                    origins.push(asn.clone());
+                }
+            }
+            if origins.is_empty() {
+                return Some("D\n".into());
+            }
+            if opt == "o" {
+                return Some(Self::data(&origins));
+            }
+            let objs: Vec<String> = origins
+                .iter()
+                .map(|a| format!("{}:          {pfx}\norigin:         {a}\nsource:         TEST\n", if pfx.contains(':') { "route6" } else { "route" }))
+                .collect();
+            let body = objs.join("\n");
+            return Some(format!("A{}\n{}C\n", body.len(), body));
         }
         if q == "!v" {
             return Some(Self::data(&["fake-irrd".to_string()]));
